@@ -37,7 +37,14 @@ Maps == { VMap(<<Ent("a", VInt(5))>>), VMap(<<>>), VMap(<<Ent("a", VNull)>>), VM
           VMap(<<Ent("__typename", VStr("In")), Ent("b", VList(<<>>)), Ent("c", VStr("RED")), Ent("d", VStr("x"))>>),
           VMap(<<Ent("__typename", VInt(1)), Ent("a", VInt(5)), Ent("b", VNull), Ent("c", VNull), Ent("d", VStr("x"))>>),
           VMap(<<Ent("__typename", VNull), Ent("zz", VInt(1)), Ent("b", VNull), Ent("c", VNull), Ent("d", VStr("x"))>>),
-          VMap(<<Ent("a", VStr("0x1F"))>>) }
+          VMap(<<Ent("a", VStr("0x1F"))>>),
+          \* a field of nested list type given a flat list (every item becomes a list of one), a single value, a mix
+          VMap(<<Ent("a", VInt(5)), Ent("e", VList(<<VInt(1), VInt(2), VInt(3)>>))>>),
+          VMap(<<Ent("a", VInt(5)), Ent("e", VInt(3))>>),
+          VMap(<<Ent("a", VInt(5)), Ent("e", VList(<<VList(<<VInt(1)>>), VNull, VInt(2)>>))>>),
+          VMap(<<Ent("a", VInt(5)), Ent("e", VList(<<VStr("12"), VStr("7")>>))>>),
+          VMap(<<Ent("a", VInt(5)), Ent("e", VList(<<VInt(1), VStr("x")>>))>>),
+          VMap(<<Ent("a", VInt(5)), Ent("b", VList(<<VMap(<<Ent("a", VInt(5)), Ent("e", VList(<<VInt(4), VInt(5)>>))>>)>>))>>) }
 
 RECURSIVE Gen(_), IsIntList(_, _)
 Gen(T) ==
